@@ -40,7 +40,8 @@ type VC struct {
 	decls       []string
 	declSet     map[string]bool
 	assum       []string
-	assumTags   map[int][]string // index into assum -> property tags of a 'scoped' clause (visible only to obligations of those properties)
+	axiomTags   map[string][]string // scoped axioms (text -> tags): given only to the obligations of their property / group
+	assumTags   map[int][]string    // index into assum -> property tags of a 'scoped' clause (visible only to obligations of those properties)
 	obligs      []*Oblig
 	roots       map[string]string // memory name -> root const
 	sorts       map[string]string // memory name -> sort
